@@ -23,6 +23,13 @@ CHECKS = {
             'OpenCV primitives trusted for given arguments; contiguous uint8 images up to 3000 px per side.', '5 C17'),
 }
 
+CHECKS['C01'] = ('simnet', 'exploration',
+    'property-based testing: Hypothesis-generated topologies/behaviours/schedules/faults run on a deterministic simulated ZeroMQ network; invariant over the recorded history (wire log + process() inputs)',
+    'Real ZMQSender/ZMQReceiver/MQ/Filter.run on simnet; every process() input at the joining filter is checked against the wire log: one '
+    'message id per set, exactly the subscribed topics published under that id per synchronized source, one original frame at a rejoin. '
+    'Thousands of generated schedules per run including delays above the poll interval, dropped publishes and kill/restart.',
+    SIMNET_NOTE, '5 C01')
+
 PENDING = {}
 
 
